@@ -28,7 +28,7 @@
 (*                 only waits for events (refuted by Termination)          *)
 (***************************************************************************)
 EXTENDS EventProtocol, Sequences, TLC
-CONSTANTS W, NOps, K, MaxFail, NPhases, FixDrain, FixWorkerErr, AllowStop, AllowFault, AliveCheck, PhaseOn, AllowCtrlC, MaxNFE
+CONSTANTS W, NOps, K, MaxFail, NPhases, FixDrain, FixWorkerErr, AllowStop, AllowFault, AliveCheck, PhaseOn, AllowCtrlC, MaxNFE, AllowInvalid
 NoLimit == 0
 Workers == 1..W
 Ops == 1..NOps
@@ -152,6 +152,9 @@ W_Loop(w) ==
 W_Create(w) ==
   /\ wpc[w] = "create"
   /\ \/ /\ wpc' = [wpc EXCEPT ![w] = "started"] /\ UNCHANGED <<problem, faulted, wout>>
+     \/ /\ AllowInvalid                  \* the operation's definition cannot be turned into a test (invalid schema): reported, not fatal
+        /\ problem' = problem \cup {<<pi, wop[w]>>} /\ UNCHANGED faulted
+        /\ wpc' = [wpc EXCEPT ![w] = "err1"] /\ wout' = [wout EXCEPT ![w] = "error"]
      \/ /\ AllowFault /\ ~faulted /\ faulted' = TRUE
         /\ problem' = problem \cup {<<pi, wop[w]>>}
         /\ IF FixWorkerErr
@@ -166,14 +169,19 @@ W_Started(w) == /\ wpc[w] = "started" /\ Put(Ev("ScS", pi, ScId(pi, wop[w]), "")
                 /\ wpc' = [wpc EXCEPT ![w] = "check"] /\ wcase' = [wcase EXCEPT ![w] = 0] /\ wout' = [wout EXCEPT ![w] = "none"]
                 /\ NoEmit /\ CUnch /\ UNCHANGED <<nextOp, wop, stop, problem, sentAfterStop, stopped, faulted>>
 Worse(a, b) == IF CRank(a) >= CRank(b) THEN a ELSE b
-W_CaseCheck(w) ==      \* cached_test_func: `if ctx.has_to_stop: raise KeyboardInterrupt`; otherwise Hypothesis runs another case or is done
+W_CaseCheck(w) ==      \* cached_test_func, at the start of every case: `if ctx.has_to_stop: raise KeyboardInterrupt`
   /\ wpc[w] = "check"
-  /\ IF HasToStop THEN wout' = [wout EXCEPT ![w] = "interrupted"] /\ wpc' = [wpc EXCEPT ![w] = "finish"]
-     ELSE \/ wcase[w] < K /\ wpc' = [wpc EXCEPT ![w] = "send"] /\ UNCHANGED wout
-          \/ /\ wpc' = [wpc EXCEPT ![w] = "finish"]
-             /\ \/ wout[w] # "none" /\ UNCHANGED wout
-                \/ wout[w] = "none" /\ wout' = [wout EXCEPT ![w] = "success"]
-                \/ wout[w] = "none" /\ wcase[w] = 0 /\ wout' = [wout EXCEPT ![w] = "skip"]    \* nothing to run (no examples)
+  /\ IF HasToStop
+     THEN /\ wpc' = [wpc EXCEPT ![w] = "finish"]
+          /\ \/ wout' = [wout EXCEPT ![w] = "interrupted"]
+             \/ wout[w] \in {"failure", "error"} /\ UNCHANGED wout     \* interrupted while replaying / shrinking: Hypothesis reports what it found
+     ELSE wcase[w] < K /\ wpc' = [wpc EXCEPT ![w] = "send"] /\ UNCHANGED wout
+  /\ NoEmit /\ CUnch /\ UNCHANGED <<nextOp, q, wop, wcase, stop, problem, sentAfterStop, stopped, faulted>>
+W_Done(w) ==           \* Hypothesis is done with the operation (no further case, hence no further stop check)
+  /\ wpc[w] = "check" /\ wpc' = [wpc EXCEPT ![w] = "finish"]
+  /\ \/ wout[w] # "none" /\ UNCHANGED wout
+     \/ wout[w] = "none" /\ wout' = [wout EXCEPT ![w] = "success"]
+     \/ wout[w] = "none" /\ wcase[w] = 0 /\ wout' = [wout EXCEPT ![w] = "skip"]    \* nothing to run (no examples)
   /\ NoEmit /\ CUnch /\ UNCHANGED <<nextOp, q, wop, wcase, stop, problem, sentAfterStop, stopped, faulted>>
 W_Send(w) ==           \* transport.send + run_checks: the API decides; Hypothesis goes on after a failure or an error
   /\ wpc[w] = "send"
@@ -184,8 +192,9 @@ W_Send(w) ==           \* transport.send + run_checks: the API decides; Hypothes
      \/ /\ wout' = [wout EXCEPT ![w] = Worse(@, "failure")] /\ problem' = problem \cup {<<pi, wop[w]>>}
      \/ /\ wout' = [wout EXCEPT ![w] = "error"] /\ problem' = problem \cup {<<pi, wop[w]>>}       \* network error, broken check
   /\ NoEmit /\ CUnch /\ UNCHANGED <<nextOp, q, wop, stop, stopped, faulted>>
-(* an errored test reports its errors (NonFatalError) before the scenario is closed *)
-W_PutNFE(w) == /\ wout[w] = "error" /\ (wpc[w] = "finish" \/ (wpc[w] = "nfe" /\ wcase[w] < MaxNFE)) /\ MaxNFE > 0
+(* a test in which a case errored reports the errors (NonFatalError) before the scenario is closed; the scenario's own status
+   may still be FAILURE when the exception Hypothesis finally raises is a failed check *)
+W_PutNFE(w) == /\ wout[w] \in {"error", "failure"} /\ (wpc[w] = "finish" \/ (wpc[w] = "nfe" /\ wcase[w] < MaxNFE)) /\ MaxNFE > 0
                /\ Put(Ev("NFE", pi, ScId(pi, wop[w]), ""))
                /\ wcase' = [wcase EXCEPT ![w] = IF wpc[w] = "finish" THEN 1 ELSE @ + 1]      \* reused as the count of reported errors
                /\ wpc' = [wpc EXCEPT ![w] = "nfe"]
@@ -202,7 +211,7 @@ Env_Stop == /\ AllowStop /\ ~stopped /\ ppc # "end" /\ stop' = TRUE /\ stopped' 
 
 Next == \/ P_Start \/ P_PhaseStarted \/ P_Skip \/ P_Finish
         \/ U_SuiteStart \/ C_Get \/ C_Timeout \/ C_Alive \/ C_Yield \/ C_CtrlC \/ C_CtrlCGet \/ C_Join \/ U_SuiteFinish \/ U_PhaseFinish
-        \/ \E w \in Workers : W_Loop(w) \/ W_Create(w) \/ W_Err1(w) \/ W_Err2(w) \/ W_Started(w) \/ W_CaseCheck(w)
+        \/ \E w \in Workers : W_Loop(w) \/ W_Create(w) \/ W_Err1(w) \/ W_Err2(w) \/ W_Started(w) \/ W_CaseCheck(w) \/ W_Done(w)
                                \/ W_Send(w) \/ W_PutNFE(w) \/ W_Finish(w) \/ W_Intr(w)
         \/ Env_Stop
 Spec == Init /\ [][Next]_vars
@@ -210,7 +219,7 @@ Spec == Init /\ [][Next]_vars
 MainNext == P_Start \/ P_PhaseStarted \/ P_Skip \/ P_Finish \/ U_SuiteStart \/ C_Get \/ C_Timeout \/ C_Alive \/ C_Yield \/ C_CtrlC
             \/ C_Join \/ U_SuiteFinish \/ U_PhaseFinish
 WorkerNext(w) == W_Loop(w) \/ W_Create(w) \/ W_Err1(w) \/ W_Err2(w) \/ W_Started(w) \/ W_CaseCheck(w) \/ W_Send(w) \/ W_Finish(w) \/ W_Intr(w)
-                 \/ W_PutNFE(w)
+                 \/ W_PutNFE(w) \/ W_Done(w)
 FairSpec == Spec /\ WF_vars(MainNext) /\ \A w \in Workers : WF_vars(WorkerNext(w))
 
 \* properties
